@@ -203,7 +203,7 @@ class C10(Spec):
                                 cases.append({'kind': 'kernel', 'method': method, 'alpha': Q(alpha), 'u0': [Q(u0)], 'du': [Q(du)],
                                               'lo': [None if lo is None else Q(lo)] if wrap[0] else None,
                                               'hi': [None if hi is None else Q(hi)] if wrap[1] else None})
-        nk = 6000 if quick else 300000
+        nk = 6000 if quick else 100000
         for i in range(nk):
             method = METHODS[i % 3]
             n = rng.choice([1, 2, 2, 3, 3, 4, 5])
@@ -219,7 +219,7 @@ class C10(Spec):
                 # the None paths put a float 0. into the arithmetic: keep those cases dyadic (E3)
                 c = kernel_case(rng, n, method, True)
             cases.append(c)
-        for i in range(600 if quick else 20000):
+        for i in range(600 if quick else 8000):
             cases.append(perturbed_case(rng, rng.choice([2, 3, 4]), METHODS[i % 3]))
         # _setup_solvers
         for i in range(250 if quick else 3000):
